@@ -48,7 +48,9 @@ def _scenario(draw, tier):
         x_form=draw(st.sampled_from(["2d", "2d", "1d", "list", "int"])), bounds_form=draw(st.sampled_from(["tuples", "tuples", "ndarray", "lists"])),
         newx_form=draw(st.sampled_from(["row", "flat", "scalar", "list"])),
         lo=draw(st.sampled_from([0.0, -2.0, 10.0])), width=draw(st.sampled_from([1.0, 4.0])),
-        func=draw(st.sampled_from(["sin", "quad", "bump"])), kappa=draw(st.sampled_from([0.5, 2.0])),
+        func=draw(st.sampled_from(["sin", "quad", "bump", "ramp"])), kappa=draw(st.sampled_from([0.5, 2.0])),
+        # evaluations sitting exactly on the search bounds (the corners of the box), as a grid or a previous boundary proposal leaves them
+        edge_data=draw(st.integers(0, 3)) == 0,
         # hyper-parameters of the first model given by the caller (as an array, a python list or a tuple) instead of fitted
         hyperpars_form=draw(st.sampled_from([None, None, None, None, "ndarray", "list", "tuple"])),
         ops=ops,
@@ -69,6 +71,8 @@ def _objective(sc, x):
         return float(np.sum(np.sin(5.0 * u)) + 0.3 * np.sum(u))
     if sc["func"] == "quad":
         return float(-np.sum((u - 0.3) ** 2) * 4.0)
+    if sc["func"] == "ramp":
+        return float(np.sum(u) * 2.0)  # rises towards the upper corner of the box: the best point is on the bounds
     return float(np.exp(-np.sum((u - 0.7) ** 2) / 0.02))
 
 
@@ -210,6 +214,10 @@ def execute(sc):
             sc = dict(sc, lo=-float(K), width=2.0 * K)
             pts = g.permutation(2 * K + 1)[: sc["n0"]] - K
             X0 = np.stack([np.roll(pts, k) for k in range(d)], axis=1).astype(float)
+        if sc.get("edge_data") and sc["x_form"] != "int" and sc["n0"] >= 3:
+            X0[0] = hi
+            X0[1] = lo
+            stats["fault_evaluations_exactly_on_the_bounds"] += 1
         y0 = np.array([_objective(sc, x) for x in X0])
         e0 = np.full(sc["n0"], 0.05) if sc["y_err"] else None
         if sc["n0"] >= 24:
